@@ -276,6 +276,8 @@ func checkC05(res *Result) {
 	res.Count("functions reachable from deliver", res.Functions, 25)
 	res.Rule("C05-R6a", "social create, attribution per object: the membership test guarding an append to the attributedTo of the object at index i consults a set selected by that same i")
 	checkAttributionPerObject(res, p, "C05-R6a")
+	res.Rule("C05-R8", "wrap decision: a posted value is wrapped in a Create exactly when it is not an activity — IsOrExtendsActivity, which deliver consults, holds for Activity and all its descendants in the ontology and for nothing else (shared with C13-R3)")
+	checkActivityPredicate(res, "C05-R8")
 	res.Rule("C05-R7", "the outbox pipeline is a function of the request: no method of the actor types writes a field of its receiver (nothing looked up for one outbox — its owner, its id — can be remembered and used for another)")
 	checkStatelessHandlers(res, p, "C05-R7")
 	res.Assumptions = append(res.Assumptions, "a custom DelegateActor is outside the library: the pipeline is checked for *sideEffectActor", "CFG paths over-approximate feasible paths")
